@@ -229,7 +229,9 @@ claim('C07', 'proof',
       'geometric crossing for the test ray and the Jordan-Brouwer parity fact holds (both '
       'hypotheses) THEN exactly the inward faces are flipped; the unconditional claim is refuted '
       'in Lean on two rational witnesses on which model and code agree (open finding). '
-      'Tolerance welding and overlapping-edge merging: oracle only.',
+      'Tolerance welding in from_faces has a literal model (Model/Weld: welded vertices are '
+      'input points, presentation-independent edge classes when the tolerance test is an '
+      'equivalence on the input points); overlapping-edge merging: oracle only.',
       'DESIGN.md 4 C07')
 claim('C08', 'proof',
       'Lean 4 theorems on a literal model of the crossing-number tests built from generated intersection kernels + model/code correspondence; exact winding oracle on the real code',
@@ -246,7 +248,8 @@ claim('C08', 'proof',
       'curve theorem (parity = containment); the geometric sub-results of polygon_relationship '
       '(inputs of the decision model). Polyface3D.is_point_inside has a literal model '
       '(Model/Outward: parity form, invariance under face order and start vertex, tied by '
-      'correspondence); Face3D.is_point_on_face is decided by the exact oracle only.',
+      'correspondence); Face3D.is_point_on_face has a literal model (Props/C08b: distance test '
+      'and parity on plane coordinates, equals the even-odd specification in general position).',
       'DESIGN.md 4 C08')
 claim('C09', 'proof',
       'Lean 4 theorems on plane lifting of set operations and on a literal model of the loop-grouping step + model/code correspondence; exact cell-set oracle on the real code',
@@ -311,7 +314,8 @@ claim('C19', 'proof',
       'and commutes with rotating the vertex list. Polygon2D.offset, Polyline2D.offset and '
       'perimeter_core_by_offset are also generated kernels.',
       'Trusted: Lean kernel, py2lean, harness, model correspondence. Not proved: simplicity / '
-      'non-overlap of offset loops, extract_rectangle (oracle only).',
+      'non-overlap of offset loops; extract_rectangle has a literal model (Props/C19c: '
+      'rejection conditions, corner positions, area conservation given the walked lists).',
       'DESIGN.md 4 C19')
 claim('C20', 'proof',
       'Lean 4 theorems on literal models of grid generation and vertex/face removal (index closed forms, filter alignment) + model/code correspondence; exact oracle incl. OBJ/STL round trips',
